@@ -85,6 +85,17 @@ def cross_package_spec():
                                     fn("m2", "m", "b", 40, [("h1", "attr"), ("hx", "attr"), ("m0", "attr")])]}
 
 
+def wrapper_helper_spec():
+    """plain helpers reached through functools wrapper objects (partial, lru_cache): whatever the library makes of them, the
+    versions must be the same in every process"""
+    def fn(name, kind, module, const, refs=()):
+        return {"name": name, "kind": kind, "module": module, "const": const, "default": None, "kwdefault": None, "setconst": None, "tupconst": None,
+                "sset": None, "pair": None, "nested": None, "explicit": None, "hidden": None, "refs": [list(r) for r in refs]}
+    return {"pkg": "vpk", "no_rules_case": True,
+            "nodes": [fn("h0", "p", "a", 3), fn("h1", "p", "b", 5), fn("m0", "m", "a", 10, [("h0", "pwrap")]), fn("m1", "m", "b", 20, [("h1", "lwrap")]),
+                      fn("m2", "m", "a", 30, [("m0", "bare"), ("h0", "lwrap")])]}
+
+
 def run(tier, seed):
     rep = C.Report("C03", tier, seed)
     gate = C.proof_gate("C03")
@@ -97,8 +108,8 @@ def run(tier, seed):
     terms, metas = [], []
     with C.Scratch("c03") as scratch:
         jobs = []
-        for pi in range(n_prog + 1):
-            spec = cross_package_spec() if pi == n_prog else vprog.gen_spec(rng, n_m=rng.randint(2, 5), n_p=rng.randint(1, 3), n_v=rng.randint(1, 3), p_hidden=0.08, pkg2=rng.random() < 0.5, outside_helpers=True, lambdas=rng.random() < 0.5)
+        for pi in range(n_prog + 2):
+            spec = cross_package_spec() if pi == n_prog else wrapper_helper_spec() if pi == n_prog + 1 else vprog.gen_spec(rng, n_m=rng.randint(2, 5), n_p=rng.randint(1, 3), n_v=rng.randint(1, 3), p_hidden=0.08, pkg2=rng.random() < 0.5, outside_helpers=True, lambdas=rng.random() < 0.5)
             if any(n.get("sset") for n in spec["nodes"]):
                 stats["with_string_set_constant"] += 1
             ms = vprog.mnames(spec)
@@ -173,6 +184,8 @@ def run(tier, seed):
                             h.update(rh.encode("utf-8"))
                     if h.hexdigest()[:16] != base["versions"][m]:
                         rep.violation("C03:version-not-digest-of-rules", "version of %s is not the digest of its rule hashes in key order" % m, dict(meta0, function=m))
+                if spec.get("no_rules_case"):
+                    continue
                 rules = [parse_key(spec, k) for k in keys]
                 rules = [r for r in rules if r is not None]
                 stats["rules_compared"] += len(rules)
